@@ -62,6 +62,14 @@ pub struct Compiler {
     /// Enums already declared in the open block scopes of this function body, with the
     /// scope depth of the declaration; a repeated `enum E` in the same scope merges into it
     declared_enums: Vec<(JsString, usize)>,
+
+    /// Namespaces already declared in the open block scopes (name, scope depth)
+    declared_namespaces: Vec<(JsString, usize)>,
+    /// Number of namespace bodies being compiled around the current statement
+    namespace_depth: usize,
+    /// Set while compiling `export namespace M` inside a namespace body: the register
+    /// holding the enclosing namespace object, whose property M the declaration merges with
+    pending_namespace_parent: Option<Register>,
 }
 
 /// Context for a class being compiled (for private field handling)
@@ -133,6 +141,9 @@ impl Compiler {
             track_completion: false,
             source_file: None,
             declared_enums: Vec::new(),
+            declared_namespaces: Vec::new(),
+            namespace_depth: 0,
+            pending_namespace_parent: None,
         }
     }
 
@@ -287,6 +298,7 @@ impl Compiler {
         self.scope_depth = self.scope_depth.saturating_sub(1);
         let depth = self.scope_depth;
         self.declared_enums.retain(|(_, d)| *d <= depth);
+        self.declared_namespaces.retain(|(_, d)| *d <= depth);
     }
 
     /// The innermost loop's `break` lands `levels` scopes further out than where the
